@@ -365,7 +365,9 @@ func runC15(c *core.Case) {
 		what, emptyIDSignal = kind, true
 		switch r.Intn(4) {
 		case 0:
-			do("operated.GetShiftingSpatialID", fmt.Sprintf("%q", bad), func() (any, error) { return []string{operated.GetShiftingSpatialID(bad, r.Range(-2, 2), r.Range(-2, 2), r.Range(-2, 2))}, nil })
+			do("operated.GetShiftingSpatialID", fmt.Sprintf("%q", bad), func() (any, error) {
+				return []string{operated.GetShiftingSpatialID(bad, r.Range(-2, 2), r.Range(-2, 2), r.Range(-2, 2))}, nil
+			})
 		case 1:
 			do("operated.Get6spatialIdsAdjacentToFaces", fmt.Sprintf("%q", bad), func() (any, error) { return operated.Get6spatialIdsAdjacentToFaces(bad), nil })
 		case 2:
@@ -443,7 +445,9 @@ func runC15(c *core.Case) {
 	case 17, 18, 19: // forward quadkey conversions
 		qh := r.Range(1, 31)
 		qv := r.Range(0, 35)
-		vq := func() string { return genID(r, clampI(qh+r.Range(-1, 1), 1, 31), clampI(qh+r.Range(-1, 1), 1, 31), clampI(qv+r.Range(-1, 1), 0, 35), clampI(qv+r.Range(-1, 1), 0, 35)).Ext() }
+		vq := func() string {
+			return genID(r, clampI(qh+r.Range(-1, 1), 1, 31), clampI(qh+r.Range(-1, 1), 1, 31), clampI(qv+r.Range(-1, 1), 0, 35), clampI(qv+r.Range(-1, 1), 0, 35)).Ext()
+		}
 		vqs := func() string { z := clampI(qh, 1, 31); return genID(r, z, z, z, z).Spatial() }
 		mode := r.Intn(3)
 		switch {
@@ -456,9 +460,13 @@ func runC15(c *core.Case) {
 			l := []string{vq()}
 			switch k {
 			case 17:
-				do("transform.ConvertExtendedSpatialIDsToQuadkeysAndVerticalIDs", fmt.Sprintf("%q %d %d", l, z1, z2), func() (any, error) { return transform.ConvertExtendedSpatialIDsToQuadkeysAndVerticalIDs(l, z1, z2, 0, 0) })
+				do("transform.ConvertExtendedSpatialIDsToQuadkeysAndVerticalIDs", fmt.Sprintf("%q %d %d", l, z1, z2), func() (any, error) {
+					return transform.ConvertExtendedSpatialIDsToQuadkeysAndVerticalIDs(l, z1, z2, 0, 0)
+				})
 			case 18:
-				do("transform.ConvertExtendedSpatialIDsToQuadkeysAndAltitudekeys", fmt.Sprintf("%q %d %d", l, z1, z2), func() (any, error) { return transform.ConvertExtendedSpatialIDsToQuadkeysAndAltitudekeys(l, z1, z2, 25, 1<<24) })
+				do("transform.ConvertExtendedSpatialIDsToQuadkeysAndAltitudekeys", fmt.Sprintf("%q %d %d", l, z1, z2), func() (any, error) {
+					return transform.ConvertExtendedSpatialIDsToQuadkeysAndAltitudekeys(l, z1, z2, 25, 1<<24)
+				})
 			default:
 				ls := []string{vqs()}
 				do("transform.ConvertSpatialIDsToQuadkeysAndVerticalIDs", fmt.Sprintf("%q %d %d", ls, z1, z2), func() (any, error) { return transform.ConvertSpatialIDsToQuadkeysAndVerticalIDs(ls, z1, z2, 0, 0) })
@@ -469,12 +477,16 @@ func runC15(c *core.Case) {
 				bad, kind, _ := malformID(r, vq())
 				l := mixList(r, vq, bad)
 				what = kind
-				do("transform.ConvertExtendedSpatialIDsToQuadkeysAndVerticalIDs", fmt.Sprintf("%q", l), func() (any, error) { return transform.ConvertExtendedSpatialIDsToQuadkeysAndVerticalIDs(l, qh, qv, 0, 0) })
+				do("transform.ConvertExtendedSpatialIDsToQuadkeysAndVerticalIDs", fmt.Sprintf("%q", l), func() (any, error) {
+					return transform.ConvertExtendedSpatialIDsToQuadkeysAndVerticalIDs(l, qh, qv, 0, 0)
+				})
 			case 18:
 				bad, kind, _ := malformID(r, vq())
 				l := mixList(r, vq, bad)
 				what = kind
-				do("transform.ConvertExtendedSpatialIDsToQuadkeysAndAltitudekeys", fmt.Sprintf("%q", l), func() (any, error) { return transform.ConvertExtendedSpatialIDsToQuadkeysAndAltitudekeys(l, qh, qv, 25, 1<<24) })
+				do("transform.ConvertExtendedSpatialIDsToQuadkeysAndAltitudekeys", fmt.Sprintf("%q", l), func() (any, error) {
+					return transform.ConvertExtendedSpatialIDsToQuadkeysAndAltitudekeys(l, qh, qv, 25, 1<<24)
+				})
 			default:
 				bad, kind, _ := malformID(r, vqs())
 				l := mixList(r, vqs, bad)
@@ -490,7 +502,9 @@ func runC15(c *core.Case) {
 				ls := []string{vqs()}
 				do("transform.ConvertSpatialIDsToQuadkeysAndVerticalIDs", fmt.Sprintf("%q max %v min %v", ls, mx, mn), func() (any, error) { return transform.ConvertSpatialIDsToQuadkeysAndVerticalIDs(ls, qh, qh, mx, mn) })
 			} else {
-				do("transform.ConvertExtendedSpatialIDsToQuadkeysAndVerticalIDs", fmt.Sprintf("%q max %v min %v", l, mx, mn), func() (any, error) { return transform.ConvertExtendedSpatialIDsToQuadkeysAndVerticalIDs(l, qh, qv, mx, mn) })
+				do("transform.ConvertExtendedSpatialIDsToQuadkeysAndVerticalIDs", fmt.Sprintf("%q max %v min %v", l, mx, mn), func() (any, error) {
+					return transform.ConvertExtendedSpatialIDsToQuadkeysAndVerticalIDs(l, qh, qv, mx, mn)
+				})
 			}
 		}
 	case 20, 21: // backward quadkey conversions
@@ -700,7 +714,13 @@ func runC15(c *core.Case) {
 			if r.Bool() {
 				hz2, vz2 = vz2, hz2
 			}
-			do("object.NewTileXYZ", fmt.Sprint(hz2, vz2), func() (any, error) { t, e := object.NewTileXYZ(hz2, 0, 0, vz2, 0); if t != nil && e != nil { return []string{"non-nil tile"}, e }; return nil, e })
+			do("object.NewTileXYZ", fmt.Sprint(hz2, vz2), func() (any, error) {
+				t, e := object.NewTileXYZ(hz2, 0, 0, vz2, 0)
+				if t != nil && e != nil {
+					return []string{"non-nil tile"}, e
+				}
+				return nil, e
+			})
 		case 35:
 			do("object.TileXYZ.SetHZoom", fmt.Sprint(z), func() (any, error) { t, _ := object.NewTileXYZ(5, 1, 1, 5, 1); return nil, t.SetHZoom(z) })
 		default:
